@@ -373,6 +373,7 @@ class Ctx:
         self.histogram: dict[str, int] = {}
         self.corr_cases = 0
         self.checker_cmd = ""
+        self.replay: dict | None = None   # set by --replay: the recorded violation being re-run
         CROSS["enabled"] = (tier == "thorough") or os.environ.get("VERIF_CROSSCHECK") == "1"
         CROSS["rng"] = random.Random(seed + 777)
         with open(os.path.join(VERIF, "known_findings.json"), encoding="utf-8") as f:
@@ -383,7 +384,25 @@ class Ctx:
         return self.tier == "quick"
 
     def budget(self, quick: int, thorough: int) -> int:
+        if self.replay is not None:
+            return min(quick, 3)          # replay: the recorded case decides; generated streams stay tiny
         return quick if self.quick else thorough
+
+    def select(self, name: str, cases: list) -> list:
+        """normal runs: the generated cases; --replay: the recorded input if step `name` reported it
+        (else a few generated cases).  Harness steps that precompute per-case data call this first."""
+        if isinstance(cases, _Selected) or self.replay is None:
+            return cases
+        what = str(self.replay.get("what") or "")
+        if what.startswith(name + ":") and "case" in self.replay:
+            return _Selected([_tuplify(self.replay["case"])])
+        return _Selected(list(cases)[:3])
+
+    def load_replay(self, path: str) -> dict:
+        with open(path, encoding="utf-8") as f:
+            self.replay = json.load(f)
+        print(json.dumps({k: self.replay.get(k) for k in ("property", "kind", "what", "no_longer_checks")})[:600])
+        return self.replay
 
     # -- counting -------------------------------------------------------------------
     def count(self, case: Any, nontrivial: bool = True, kind: str | None = None) -> None:
@@ -518,7 +537,8 @@ class Ctx:
         }
         # evidence/<id>.json describes runs against /repo itself; a run against another tree
         # (VERIF_REPO: scratch worktrees used to evaluate seeded changes) records elsewhere
-        evdir = "evidence" if os.path.realpath(REPO) == "/repo" else os.path.join("replays", "evidence_other_tree")
+        evdir = "evidence" if os.path.realpath(REPO) == "/repo" and self.replay is None \
+            else os.path.join("replays", "evidence_other_tree")   # a --replay run is not a coverage record
         os.makedirs(os.path.join(VERIF, evdir), exist_ok=True)
         ev["repo"] = REPO
         with open(os.path.join(VERIF, evdir, f"{self.prop}.json"), "w", encoding="utf-8") as f:
@@ -528,6 +548,17 @@ class Ctx:
               f"{self.evaluations} evaluations ({len(self.distinct)} distinct non-trivial), "
               f"{ev['wall_s']} s")
         return 1 if n_viol else 0
+
+
+class _Selected(list):
+    pass
+
+
+def _tuplify(x):
+    """JSON gives lists; the generators build tuples (some harness code compares with tuples)"""
+    if isinstance(x, list):
+        return tuple(_tuplify(y) for y in x)
+    return x
 
 
 _KNOWN_MATCHERS: dict[str, Callable[[str, Any, dict], bool]] = {}
@@ -559,6 +590,7 @@ def differential(ctx: Ctx, name: str, cases: list[Any], to_sx: Callable[[Any], A
     decode(model sx result) -> canonical value of the same shape;
     oracle(case, impl_value) -> None if the property holds on this case, else a message
     (independent of the model: specification / html.parser / ...)."""
+    cases = ctx.select(name, cases)
     model_out = run_model([to_sx(c) for c in cases], driver=driver)
     disagreements = []
     for c, m in zip(cases, model_out):
